@@ -259,6 +259,10 @@ def served_atom(atom, ns_ast):
     return False
 
 
+MUTATORS = {'add', 'append', 'update', 'pop', 'discard', 'clear',
+            'setdefault', 'remove', 'insert', 'extend', 'popitem'}
+
+
 def r4_connect(ctx, fam):
     m = ctx.model
     eff = effects(ctx)
@@ -342,6 +346,33 @@ def r4_connect(ctx, fam):
             continue
         if sid_none:
             counts['dup'] += 1
+            touched = []
+
+            def keyed(node):
+                # state keyed by the requesting client (a plain statistics
+                # counter is not)
+                return any(isinstance(x, ast.Name) and x.id in (eio_p, ns_p)
+                           for x in ast.walk(run.expand(node)))
+            for e in p.events:
+                if e.kind in ('store', 'del') and \
+                        U(run.expand(e.expr)).startswith('self.') and \
+                        keyed(e.expr):
+                    touched.append(e)
+                elif e.kind == 'call' and e.callee() in MUTATORS and \
+                        isinstance(e.expr.func, ast.Attribute) and \
+                        U(run.expand(e.expr.func.value)).startswith(
+                            'self.') and 'logger' not in U(e.expr) and \
+                        keyed(e.expr):
+                    touched.append(e)
+            once('dup-no-effect', not touched, 'a refused (duplicate) '
+                 'CONNECT leaves the server state untouched: the connection '
+                 'that already exists on this transport and namespace is '
+                 'not affected', 'a CONNECT that is refused because the '
+                 'transport is already connected to the namespace modifies '
+                 'server state (%s): the live connection is affected by a '
+                 'request that was refused' % ', '.join(
+                     U(e.expr)[:60] for e in touched[:2]),
+                 touched[0].node if touched else None)
             once('dup', not trig and types == ['CONNECT_ERROR'] and p.normal,
                  'duplicate/failed admission: CONNECT_ERROR, no handler',
                  'sid None path: triggers=%d packets=%s exit=%s' % (
